@@ -90,6 +90,8 @@ theorem C13_time_value_spec (c : Conv Rat) (hr : TimeRatiosNonzero c) (v : Y) (t
 
 /-! ### servings, tags, locale, name and URL -/
 
+/-- `as_servings` is exactly `Spec.Servings`: one number below 2^32; or the leading numbers of the `|`-separated, trimmed
+    entries of a text; or of the elements of a list (numbers, or texts starting with one); duplicates refused -/
 theorem C13_servings_spec (v : Y) (l : List Nat) : valueAsServings v = some l ↔ Spec.Servings v l :=
   valueAsServings_iff v l
 
@@ -131,6 +133,8 @@ theorem C13_servings_sound (v : Y) (l : List Nat) (h : valueAsServings v = some 
   | map m => exact absurd hs (by simp [Spec.Servings])
   | tagged => exact absurd hs (by simp [Spec.Servings])
 
+/-- `as_tags` is exactly `Spec.Tags`: the trimmed entries of a comma text, or the entries of a list (texts or numbers),
+    empty entries dropped, first occurrence of each kept, in order -/
 theorem C13_tags_spec (v : Y) (l : List Str) : valueAsTags v = some l ↔ Spec.Tags v l :=
   valueAsTags_iff v l
 
@@ -169,9 +173,12 @@ theorem C13_tags_entries (s : Str) (l : List Str) (h : valueAsTags (.str s) = so
     rw [h1] at h2; subst h2
     exact ⟨⟨e, he, (trim_spec e t).mpr ht⟩, hne⟩
 
+/-- `as_locale` is exactly `ll` or `ll_CC` with two ASCII letters each -/
 theorem C13_locale_spec (v : Y) (r : Str × Option Str) : valueAsLocale v = some r ↔ Spec.Locale v r :=
   valueAsLocale_iff v r
 
+/-- `as_name_and_url` (author, source) is exactly `Spec.NameAndUrl`: `Name <Url>` with a valid URL, else a bare URL, else a
+    name (blank parts dropped); or a mapping with `name` and/or `url` texts -/
 theorem C13_nameurl_spec (alpha : Char → Bool) (hcolon : alpha ':' = false) (v : Y) (r : NameUrl) :
     asNameAndUrl alpha v = some r ↔ Spec.NameAndUrl alpha v r :=
   asNameAndUrl_iff alpha hcolon v r
